@@ -8,16 +8,21 @@ MODULES = K.mods("base", "Angle", "Epoch", "Interpolation", "Coordinates", "Eart
 REQUIRED = ["Sun.get_equinox_solstice", "Sun.equation_of_time", "Sun.apparent_geocentric_position",
             "Epoch.rise_set", "Epoch.apparent_sidereal_time", "times_rise_transit_set",
             "equatorial2horizontal", "ecliptical2equatorial", "true_obliquity", "nutation_longitude"]
-THEOREMS = ["C14_jde2000", "C14_eot_closed_form", "C14_eot_reduced", "C14_eot_bound", "C14_eot_seconds", "C14_eot_recompose",
+BASE_THEOREMS = ["C14_jde2000", "C14_eot_closed_form", "C14_eot_reduced", "C14_eot_bound", "C14_eot_seconds", "C14_eot_recompose",
             "C14_season_structure", "C14_season_loop_invariant", "C14_season_longitude", "C14_season_target_or_antipode", "C14_season_result", "C14_season_year_range", "C14_season_type",
             "C14_season_order", "C14_season_year_length", "C14_season_joint",
             "C14_sunrise_identity", "C14_rise_set_closed_form", "C14_callee_shapes", "C14_rise_set_altitude", "C14_rise_set_order",
             "C14_rise_set_polar", "C14_trts_none", "C14_never_crosses"]
-PROOF_TIMEOUT = {"quick": 1500, "thorough": 2400}
+# thorough tier only (C14_final.v): the season theorems with the CtorExact premise discharged by property C02's
+# Epoch_ctor_exact_ideal (17 files of C02, 5-6 min single core + 16 shards)
+THOROUGH_THEOREMS = ["C14_season_longitude_unconditional", "C14_season_target_or_antipode_unconditional",
+                     "C14_season_result_unconditional"]
+THEOREMS = list(BASE_THEOREMS)
+PROOF_TIMEOUT = {"quick": 1500, "thorough": 3000}
 EXHAUSTIVE = False
 MANIFEST = {
     "category": "proof",
-    "text": "Partial proof. Ideal-instance (real-arithmetic) closed forms of the regenerated Sun.equation_of_time (E = 4*red360(L0-0.0057183-alpha+dpsi*cos eps), |E|<=720 min, (m,s) decomposition), of Epoch.rise_set (sunrise-equation quotient with h0 = -0.83-2.076 sqrt(h)/60 deg as coded, ValueError beyond 66.55 deg) and of the None guard of times_rise_transit_set (if direction only); structure of Sun.get_equinox_solstice (mean-instant polynomials, exit and iteration step of the generated loop) and, by induction on the fuel with the Sun-position premise discharged by the imported C08 theorem on Sun.apparent_geocentric_position, the season clause modulo termination: every returned instant (int years -1000..3000) has the library's own apparent longitude within 2.5e-6 deg of k*90 deg or of its antipode (termination, exclusion of the antipode and exactness of Epoch(float) remain unproved / premises). Callees (VSOP position, nutation, obliquity, Epoch/Angle constructors, get_date, leap_seconds) are abstracted as hypotheses whose result shapes are shown attained by the model in its binary64 instance. Every numeric clause of the property (1e-5 deg, 25/17.5 min, 45 s/day, 1 deg, 0.005 deg, None iff never crossing) is only searched by a literal Python oracle; bit-exact correspondence every run.",
+    "text": "Partial proof. Ideal-instance (real-arithmetic) closed forms of the regenerated Sun.equation_of_time (E = 4*red360(L0-0.0057183-alpha+dpsi*cos eps), |E|<=720 min, (m,s) decomposition), of Epoch.rise_set (sunrise-equation quotient with h0 = -0.83-2.076 sqrt(h)/60 deg as coded, ValueError beyond 66.55 deg) and of the None guard of times_rise_transit_set (if direction only); structure of Sun.get_equinox_solstice (mean-instant polynomials, exit and iteration step of the generated loop) and, by induction on the fuel with the Sun-position premise discharged by the imported C08 theorem on Sun.apparent_geocentric_position, the season clause modulo termination: every returned instant (int years -1000..3000) has the library's own apparent longitude within 2.5e-6 deg of k*90 deg or of its antipode (termination and exclusion of the antipode remain unproved; exactness of Epoch(float) is a premise in the quick tier and is discharged in the thorough tier by importing property C02's constructor theorem). Callees (VSOP position, nutation, obliquity, Epoch/Angle constructors, get_date, leap_seconds) are abstracted as hypotheses whose result shapes are shown attained by the model in its binary64 instance. Every numeric clause of the property (1e-5 deg, 25/17.5 min, 45 s/day, 1 deg, 0.005 deg, None iff never crossing) is only searched by a literal Python oracle; bit-exact correspondence every run.",
     "technique": "symbolic evaluation of the generated model in the real-number instance with abstracted callees (call-by-value pyrun2) + induction on loop fuel + field/lra/nra/interval + binary64 witnesses (vm_compute) + property oracle search + bit-exact differential correspondence",
     "design_ref": "8/C14",
 }
@@ -38,7 +43,7 @@ CLAUSES = {
         "proved [about the polynomials jde0 the iteration starts from (tied to the code by C14_season_structure), NOT about the returned instants; interval: C14_season_order, C14_season_year_length, C14_season_joint]",
     "int years outside -1000..3000 -> ValueError (all four seasons, both sides), float year -> TypeError": "proved [ideal: C14_season_year_range, C14_season_type]",
     "SEASON CLAUSE: at the returned instant the Sun's apparent longitude, as Sun.apparent_geocentric_position itself returns it, is within 2.5e-6 deg (property: 1e-5) of k*90 deg or of its antipode, for every season and int year -1000..3000":
-        "proved modulo termination [ideal: C14_season_longitude, C14_season_target_or_antipode, C14_season_result; induction on the loop fuel; the Sun-position premise is DISCHARGED by importing property C08's C08_app.sun_apparent_unconditional (years -2000..6000, 24 files of C07/C08 compiled in this build)]. Remaining: (1) termination - the disjunct OutOfFuel; (2) the antipode k*90+180 is not excluded; (3) premise CtorExact: Epoch(float j) has JDE j on the instants within 290058 days of the mean instant (shape attained in the binary64 instance, C14_callee_shapes; the real-arithmetic calendar round trip is not proved)",
+        "proved modulo termination [ideal: C14_season_longitude, C14_season_target_or_antipode, C14_season_result; induction on the loop fuel; the Sun-position premise is DISCHARGED by importing property C08's C08_app.sun_apparent_unconditional (years -2000..6000, 24 files of C07/C08 compiled in this build)]. Remaining: (1) termination - the disjunct OutOfFuel; (2) the antipode k*90+180 is not excluded; (3) QUICK tier: premise CtorExact (Epoch(float j) has JDE j on the instants within 290058 days of the mean instant). THOROUGH tier: that premise is discharged too, by importing property C02's C02_ctor_ideal.Epoch_ctor_exact_ideal (all reals JDE -0.5 .. 5399999.5; 17 files, 5-6 min + 16 shards, hence thorough only): C14_season_longitude_unconditional, C14_season_target_or_antipode_unconditional, C14_season_result_unconditional have NO callee premise - only termination and the antipode remain",
     "same invariant for an arbitrary abstract Sun model (lam, bet, rad) on a step-closed set of instants":
         "proved as PARTIAL correctness [ideal: C14_season_loop_invariant]; its premises SunModel/StepClosed are instantiated and discharged in C14_season_longitude",
     "termination of the season iteration; exclusion of the antipode; order/spacing (88-95 d, 365.2-365.3 d) of the RETURNED instants": "unproved (searched): needs quantitative rate bounds of the apparent longitude (VSOP + nutation + aberration)",
@@ -68,10 +73,19 @@ CLAUSES = {
 C08_IMPORT = ["../C07/C07_angle.v", "../C07/C07_defs.v", "../C07/C07_sec_a.v", "../C07/C07_sec_b.v", "../C07/C07_sec_c.v", "../C07/C07_sec.v", "../C07/C07_corr.v", "../C07/C07_lib.v", "../C07/C07_mono.v", "../C07/C07_dec.v", "../C07/C07_series.v", "../C07/C07_mono_code.v", "../C07/C07_mono_earth.v", "../C08/C08_base.v", "../C08/C08_angle2.v", "../C08/C08_node.v", "../C08/C08_nut_angle.v", "../C08/C08_nut_loop.v", "../C08/C08_nut_main.v", "../C08/C08_nut_bound.v", "../C08/C08_obliquity.v", "../C08/C08_sun.v", "../C08/C08_wide.v", "../C08/C08_app.v"]
 
 
+C02_IMPORT = ["../C02/C02_ctor_spec.v"] + ["../C02/C02_ctor_rt_%02d.v" % k for k in range(16)] + ["../C02/C02_ctor_ideal.v"]
+
+
 def proof_files(tier):
-    return C08_IMPORT + ["C14_tac.v", "C14_angle.v", "C14_jde.v", "C14_eot.v", "C14_angle2.v", "C14_season.v",
+    global THEOREMS
+    files = C08_IMPORT + ["C14_tac.v", "C14_angle.v", "C14_jde.v", "C14_eot.v", "C14_angle2.v", "C14_season.v",
             "C14_sA0.v", "C14_sA1.v", "C14_sA2.v", "C14_sA3.v", "C14_sB0.v", "C14_sB1.v", "C14_sB2.v", "C14_sB3.v", "C14_season_all.v",
             "C14_poly.v", "C14_rise.v", "C14_riseset.v", "C14_trts.v", "C14_witness.v", "C14_trig.v", "C14_sunapp.v", "C14.v"]
+    if tier == "thorough":
+        THEOREMS = BASE_THEOREMS + THOROUGH_THEOREMS
+        return files + C02_IMPORT + ["C14_final.v"]
+    THEOREMS = list(BASE_THEOREMS)
+    return files
 
 
 # ------------------------------------------------------------------ correspondence
